@@ -17,6 +17,18 @@
   * `exec` returns the outcome and the directory state after **every** executed operation, so
     "at every instant (operation granularity)" is "for every state in the trace, under every plan".
 
+  * Same-file-ness is explicit (`Links`): the OS resolves a path *spelling* (relative, absolute, with
+    `..`, through symlinked directories or a symlink to the file) to a directory entry (`resolve` =
+    realpath) and every directory entry names an inode (`inoOf`); hard links are several entries with
+    one inode id. `isSameFileL` (= `os.path.samefile` behind the `isfile` guards) is inode equality
+    of the resolved entries; `route` takes the in-place route iff there is no out or out names the
+    inode of in — by whatever path. On the direct route `open(out, 'w')` truncates the *inode*: the
+    operation carries the other entries that are links to it (`peers`), and every write lands in all
+    of them. `runJobsL` threads the link table through the loop (a successful in-place rewrite gives
+    the source entry a fresh inode: `os.replace`).
+    The older `isSameFile`/`jobOps`/`runJobs` (no link table: a name is its own inode) are the special
+    case `Links` empty (`jobOpsL_nolinks`).
+
   No imports beyond core: the driver links this file.
 -/
 
@@ -42,6 +54,9 @@ def erase : Fs → String → Fs
   | (k, v) :: rest, p => if k = p then rest else (k, v) :: erase rest p
 
 def names (fs : Fs) : List String := fs.map (·.1)
+
+/-- The same bytes into several entries (the directory entries that are links to one inode). -/
+def setMany (fs : Fs) (ps : List String) (c : String) : Fs := ps.foldl (fun f p => set f p c) fs
 
 def contains (fs : Fs) (p : String) : Bool := (get? fs p).isSome
 
@@ -70,7 +85,9 @@ inductive Op where
   | sameFile                          -- `is_same_file(in_path, out_path)`: stats only
   | openRead (src : String)           -- `open(in_path)` (+ `representer.load` for ObjectRewriter)
   | mkTemp (tmp : String)             -- `NamedTemporaryFile(dir=dirname(in_path), delete=False)`
-  | openWrite (out : String)          -- `open(out_path, 'w')` (only when out is another file)
+  | openWrite (out : String) (peers : List String := [])
+                                      -- `open(out_path, 'w')` (only when out is another file); `out` is the
+                                      -- resolved entry, `peers` the other entries linked to its inode
   | fmt (i : Nat)                     -- formatting of line i / of the whole object (i = 0)
   | write (i : Nat) (chunk : String)  -- `outfile.write(chunk_i)`
   | close                             -- leaving the `with`: flush + close of `outfile`
@@ -91,7 +108,7 @@ def Op.label : Op → String
   | .sameFile => "sameFile"
   | .openRead _ => "openRead"
   | .mkTemp _ => "mkTemp"
-  | .openWrite _ => "openWrite"
+  | .openWrite _ _ => "openWrite"
   | .fmt _ => "fmt"
   | .write _ _ => "write"
   | .close => "close"
@@ -103,6 +120,8 @@ structure St where
   fs : Fs
   target : Option String := none
   temp : Option String := none
+  /-- the other directory entries that are hard links to the inode `outfile` writes to -/
+  peers : List String := []
   deriving Repr, Inhabited
 
 /-- Effect of an operation that does not fault. `none` = the operation fails by itself
@@ -110,15 +129,16 @@ structure St where
 def apply : Op → St → Option St
   | .sameFile, st => some st
   | .openRead src, st => if st.fs.contains src then some st else none
-  | .mkTemp t, st => some { fs := st.fs.set t "", target := some t, temp := some t }
-  | .openWrite o, st => some { st with fs := st.fs.set o "", target := some o }
+  | .mkTemp t, st => some { fs := st.fs.set t "", target := some t, temp := some t, peers := [] }
+  | .openWrite o ps, st =>
+    some { st with fs := (st.fs.set o "").setMany ps "", target := some o, peers := ps }
   | .fmt _, st => some st
   | .write _ c, st =>
     match st.target with
     | none => none
     | some t => match st.fs.get? t with
       | none => none
-      | some old => some { st with fs := st.fs.set t (old ++ c) }
+      | some old => some { st with fs := (st.fs.set t (old ++ c)).setMany st.peers (old ++ c) }
   | .close, st => some st
   | .replace src, st =>
     match st.temp with
@@ -188,9 +208,10 @@ def newContent : List Op → String
 def inplaceOps (src tmp : String) (body : List Op) : List Op :=
   [.sameFile, .openRead src, .mkTemp tmp] ++ body ++ [.close, .replace src]
 
-/-- Out is another file: written directly (not claimed to be all-or-nothing). -/
-def directOps (src out : String) (body : List Op) : List Op :=
-  [.sameFile, .openRead src, .openWrite out] ++ body ++ [.close]
+/-- Out is another file: written directly (not claimed to be all-or-nothing). `peers`: the other
+    directory entries that are links to the inode of `out`. -/
+def directOps (src out : String) (body : List Op) (peers : List String := []) : List Op :=
+  [.sameFile, .openRead src, .openWrite out peers] ++ body ++ [.close]
 
 /-- `is_same_file(path1, path2)`: both given, both existing files, same file.
     Paths are canonical names, so "same file" is equality of names. -/
@@ -228,6 +249,89 @@ def runJobs (cfg : Cfg) (plan : Plan) : Nat → Fs → List Job → Outcome × T
     match r.1 with
     | .ok =>
       let r' := runJobs cfg plan (i + (jobOps fs j).length) (final fs r.2) js
+      (r'.1, r.2 ++ r'.2)
+    | o => (o, r.2)
+
+/-! ### Same-file-ness: path spellings, directory entries, inodes -/
+
+/-- How the OS sees the names of the scratch tree.
+    `entry`: path spelling (as handed to the step) ↦ directory entry it resolves to (`realpath`: cwd,
+    `.`/`..`, symlinked directories, a symlink to the file); a spelling not listed is its own entry.
+    `ino`: directory entry ↦ inode id; hard links = several entries with one id; an entry not listed
+    is an inode of its own. -/
+structure Links where
+  entry : List (String × String) := []
+  ino : List (String × Nat) := []
+  deriving Repr, Inhabited
+
+namespace Links
+
+def resolve (l : Links) (p : String) : String := (l.entry.lookup p).getD p
+
+def inoOf (l : Links) (p : String) : Option Nat := l.ino.lookup p
+
+/-- `os.path.samefile` on two existing entries: the same entry, or two entries with one inode id. -/
+def sameIno (l : Links) (p q : String) : Bool :=
+  p == q || (match l.inoOf p, l.inoOf q with
+    | some a, some b => a == b
+    | _, _ => false)
+
+/-- The other directory entries that are links to the inode of `o`. -/
+def peers (l : Links) (o : String) : List String :=
+  match l.inoOf o with
+  | none => []
+  | some n => (l.ino.map (·.1)).filter fun p => p != o && l.inoOf p == some n
+
+/-- An inode id not in use. -/
+def fresh (l : Links) : Nat := l.ino.foldl (fun m e => max m e.2) 0 + 1
+
+/-- Entry `p` now names inode `n` (a new file, or `os.replace` onto `p`). -/
+def bind (l : Links) (p : String) (n : Nat) : Links :=
+  { l with ino := (p, n) :: l.ino.filter (·.1 != p) }
+
+end Links
+
+/-- `is_same_file(path1, path2)`: both given, both resolve to existing files, `os.path.samefile`
+    (inode identity of what the two spellings resolve to). -/
+def isSameFileL (l : Links) (fs : Fs) (a : String) (b : Option String) : Bool :=
+  match b with
+  | none => false
+  | some b => a != "" && b != "" && fs.contains (l.resolve a) && fs.contains (l.resolve b)
+      && l.sameIno (l.resolve a) (l.resolve b)
+
+/-- The routing at the top of `in_to_out`: `none` = temp + replace (in place), `some o` = write
+    straight to the entry `o` the out spelling resolves to. -/
+def route (l : Links) (fs : Fs) (j : Job) : Option String :=
+  let out := if isSameFileL l fs j.src j.out then none else j.out
+  match out with
+  | some o => if o != "" then some (l.resolve o) else none
+  | none => none
+
+/-- `in_to_out(in_path, out_path)` with same-file-ness decided on inodes. `j.src` is the resolved
+    entry of the in path (its last component is not a symlink); `j.out` is a spelling. -/
+def jobOpsL (l : Links) (fs : Fs) (j : Job) : List Op :=
+  match route l fs j with
+  | some o => directOps j.src o j.body (l.peers o)
+  | none => inplaceOps j.src j.tmp j.body
+
+/-- The link table after a `in_to_out` that ended ok: `os.replace(temp, src)` makes `src` name the
+    temp file's (new) inode; a direct write to a missing `out` creates an inode. -/
+def linksAfter (l : Links) (fs : Fs) (j : Job) : Links :=
+  match route l fs j with
+  | none => l.bind j.src l.fresh
+  | some o => if fs.contains o then l else l.bind o l.fresh
+
+def runJobL (cfg : Cfg) (plan : Plan) (i : Nat) (l : Links) (fs : Fs) (j : Job) : Outcome × Trace :=
+  exec cfg plan i { fs := fs } (jobOpsL l fs j)
+
+/-- The loop of `files_in_to_out` with the link table threaded through. -/
+def runJobsL (cfg : Cfg) (plan : Plan) : Nat → Links → Fs → List Job → Outcome × Trace
+  | _, _, _, [] => (.ok, [])
+  | i, l, fs, j :: js =>
+    let r := runJobL cfg plan i l fs j
+    match r.1 with
+    | .ok =>
+      let r' := runJobsL cfg plan (i + (jobOpsL l fs j).length) (linksAfter l fs j) (final fs r.2) js
       (r'.1, r.2 ++ r'.2)
     | o => (o, r.2)
 
